@@ -420,3 +420,79 @@ if __name__ == "__main__":
     name, seed, count = sys.argv[1], int(sys.argv[2]), int(sys.argv[3])
     for c in generate(name, seed, count):
         print(json.dumps(c))
+
+
+# ---------------------------------------------------------------- viz profile (declared functions)
+
+def generate_viz(seed, count):
+    """histories whose constructors are the declared pool functions P0..P47
+    (distinct dig IDs / names); DOT text is recorded after every operation"""
+    import json, os, copy
+    pool = json.load(open(os.path.join(os.path.dirname(os.path.abspath(__file__)), "pool.json")))
+    rng = random.Random(f"viz:{seed}")
+    out = []
+    for ci in range(count):
+        fns, ops = [], []
+        nfn = 0
+        parents = [None]
+        provided = []          # keys offered: ("s",ty,name) / ("g",ty,group)
+        chosen = rng.sample(pool, rng.randint(3, 9))
+        if rng.random() < 0.4:
+            for _ in range(rng.randint(1, 2)):
+                ops.append(dict(op="scope", parent=rng.randrange(len(parents))))
+                parents.append(0)
+        for sg in chosen:
+            f = copy.deepcopy(sg)
+            f["id"] = nfn
+            nfn += 1
+            positional = all(r["k"] != "obj" for r in f["results"])
+            if positional and rng.random() < 0.5:
+                q = rng.random()
+                nm, gr, asv = rng.choice([1, 2, 3]), rng.choice([1, 2]), [rng.choice([16, 17])]
+                for r in f["results"]:
+                    if q < 0.4:
+                        r["name"] = nm
+                    elif q < 0.7:
+                        r.update(k="group", group=gr, flatten=False)
+                    else:
+                        r["as"] = list(asv)
+            if rng.random() < 0.25:
+                f["plan"] = [rng.choice(["err", "panic"]) if f["err"] else "panic", "ok", "ok"]
+            f["lens"] = [[rng.choice([0, 1, 2]) for _ in range(6)] for _ in range(3)]
+            if rng.random() < 0.3:
+                f["callback"] = True
+            fns.append(f)
+            s = rng.randrange(len(parents))
+            ops.append(dict(op="provide", scope=s, fn=f["id"], export=rng.random() < 0.15))
+
+            def walk(rs):
+                for r in rs:
+                    if r["k"] == "obj":
+                        walk(r["fields"])
+                    elif r["k"] == "single":
+                        for t in (r.get("as") or [r["ty"]]):
+                            provided.append(("s", t, r.get("name", 0)))
+                    else:
+                        provided.append(("g", r["ty"], r["group"]))
+            walk(f["results"])
+            if rng.random() < 0.2 and len(parents) < 4:
+                ops.append(dict(op="scope", parent=rng.randrange(len(parents))))
+                parents.append(0)
+        for _ in range(rng.randint(2, 5)):
+            leaves = []
+            for _ in range(rng.randint(1, 3)):
+                if provided and rng.random() < 0.85:
+                    k = rng.choice(provided)
+                else:
+                    k = ("s", rng.randrange(6), rng.choice([0, 1]))
+                if k[0] == "s":
+                    leaves.append(dict(k="single", ty=k[1], name=k[2], opt=rng.random() < 0.15))
+                else:
+                    leaves.append(dict(k="group", ty=k[1], group=k[2], soft=rng.random() < 0.2))
+            f = dict(id=nfn, params=[dict(k="obj", fields=leaves)], results=[], err=True)
+            nfn += 1
+            fns.append(f)
+            ops.append(dict(op="invoke", scope=rng.randrange(len(parents)), fn=f["id"]))
+        cfg = dict(defer=rng.random() < 0.2, recover=rng.random() < 0.8, dry=False)
+        out.append(dict(id=f"viz-{seed}-{ci}", profile="viz", viz=True, config=cfg, fns=fns, ops=ops))
+    return out
